@@ -51,6 +51,7 @@ class FuncInfo:
     module: Module
     node: ast.AST                  # FunctionDef or Lambda
     cls: Optional[str] = None      # qualified class name if a method
+    captured: Any = None           # closure object when the function was made by a factory at import time (its free variables)
 
     @property
     def where(self) -> str:
